@@ -89,6 +89,21 @@ def cases(shape_p, shape_q):
     for g1, g2 in itertools.product(gp, gq):
         for q in ('3 uL', '1 mg'):
             out.append(T(ref_of('P', g1), ref_of('Q', g2), q))
+    # sub-slices of slices (plate[a][b]): which wells they address is judged against 0-based numpy indexing of the parent
+    parents = ["slice(None)", "(slice(None), slice(None))"]
+    if shape_p[0] >= 2:
+        parents.append("(slice(2, None), slice(None))")
+    if shape_p[1] >= 3:
+        parents += ["(slice(None), slice(2, 3))", "(slice(None), slice(None, None, 2))"]
+    subsels = ["(slice(0, 1), slice(None))", "(slice(None), slice(1, None))", "(slice(1, None, 2), slice(None))",
+               "(slice(None), slice(1, None, 2))", "(slice(None, None, 2), slice(0, 2))", "(slice(0, 1), slice(0, 1))",
+               "(slice(1, 3, 2), slice(1, 4, 2))", "slice(1, None)", "(slice(1, None), slice(0, 3, 2))"]
+    for pa in parents:
+        for sb in subsels:
+            out.append(T('C', ['P', pa, sb], '4 uL'))
+            out.append(T(['P', pa, sb], 'D', '2 uL'))
+            out.append({'op': 'remove', 'obj': ['P', pa, sb], 'what': 'water'})
+            out.append({'op': 'fill_to', 'obj': ['P', pa, sb], 'solvent': 'tea', 'q': '300 uL'})
     # between two versions of one plate (distinct objects, same name): they are different plates
     for g1, g2 in [(a, b) for a in gp for b in gp][::max(1, len(gp) * len(gp) // 40)] + [(g, g) for g in gp]:
         out.append(T(ref_of('Pv', g1), ref_of('P', g2), '3 uL'))
@@ -163,6 +178,9 @@ def feat_of(world, act):
 def judge(pp, subs, world, act, via):
     """-> (violations, class)"""
     case = None
+    for key in ('src', 'dst', 'obj'):
+        if key in act and e1.region(world, act[key])[0] is None:
+            return [], ('not-judged', 'sub-slice outside the judged forms')
     feat = feat_of(world, act) + f",via={via}"
     desc = ('recipe step ' if via == 'recipe' else '') + e1.act_str(act)
     try:
